@@ -67,17 +67,36 @@ Proof.
   repeat match goal with |- context [existsb ?f opts] => destruct (existsb f opts) end; reflexivity.
 Qed.
 
+Lemma existsb_by_kind (T : optkind -> bool) opts :
+  existsb (fun o : optkind * bool => snd o && T (fst o)) opts =
+  (opt_on opts OLoopback && T OLoopback) || (opt_on opts OLinkLocal && T OLinkLocal)
+  || (opt_on opts OPrivateNet && T OPrivateNet).
+Proof.
+  induction opts as [|[k b] opts IH]; [reflexivity|].
+  unfold opt_on in *. cbn [existsb fst snd]. rewrite IH.
+  destruct k, b; cbn [optkind_eqb andb orb];
+  repeat match goal with |- context [existsb ?f opts] => destruct (existsb f opts) end;
+  destruct (T OLoopback), (T OLinkLocal), (T OPrivateNet); reflexivity.
+Qed.
+
+Lemma in_ranges_app r1 r2 x : in_ranges (r1 ++ r2) x = in_ranges r1 x || in_ranges r2 x.
+Proof. unfold in_ranges. apply existsb_app. Qed.
+
+Lemma in_opt_ranges o x : in_ranges (opt_ranges o) x = snd o && in_ranges (opt_table (fst o)) x.
+Proof. unfold opt_ranges. destruct (snd o); reflexivity. Qed.
+
 Lemma in_cfg opts x :
   in_ranges (flat_map opt_ranges opts) x =
   (opt_on opts OLoopback && in_ranges loopbackRanges x)
   || (opt_on opts OLinkLocal && in_ranges linkLocalRanges x)
   || (opt_on opts OPrivateNet && in_ranges privateRange x).
 Proof.
-  induction opts as [|[k b] opts IH].
-  - reflexivity.
-  - unfold in_ranges in *. simpl flat_map. rewrite existsb_app, IH. unfold opt_on, opt_ranges. simpl.
-    destruct k, b; simpl;
-    repeat match goal with |- context [existsb ?f ?l] => destruct (existsb f l) end; reflexivity.
+  change loopbackRanges with (opt_table OLoopback).
+  change linkLocalRanges with (opt_table OLinkLocal).
+  change privateRange with (opt_table OPrivateNet).
+  rewrite <- (existsb_by_kind (fun k => in_ranges (opt_table k) x)).
+  induction opts as [|o opts IH]; [reflexivity|].
+  cbn [flat_map existsb]. rewrite in_ranges_app, in_opt_ranges, IH. reflexivity.
 Qed.
 
 Lemma ranges_of_opts_spec opts a : contained (ranges_of_opts opts) a = spec_opts_trusted opts a.
@@ -119,9 +138,13 @@ Proof.
     intros [a|]; simpl; [rewrite ranges_of_opts_spec|]; reflexivity.
   - simpl in Hwf. apply N.ltb_lt in Hwf. simpl. apply (trusted_count_spec addr P NP). exact Hwf.
   - destruct ranges as [ranges|]; [|reflexivity]. simpl. apply (trusted_range_spec addr P NP).
-  - simpl in Hwf. destruct subs as [|s0 rest]; [discriminate|].
-    simpl resolve. rewrite chain_spec by discriminate. rewrite map_map.
-    simpl spec_resolve. f_equal. apply map_ext_in. intros s Hin.
+  - destruct subs as [|s0 rest]; [discriminate|].
+    change (forallb wf_resolver (s0 :: rest) = true) in Hwf.
+    set (subs := s0 :: rest) in *.
+    change (resolve rq (RChain subs)) with (chain addr (map (fun s (_ : unit) => resolve rq s) subs)).
+    rewrite chain_spec by (subst subs; discriminate). rewrite map_map.
+    change (spec_resolve rq (RChain subs)) with (spec_chain addr (map (spec_resolve rq) subs)).
+    f_equal. apply map_ext_in. intros s Hin.
     rewrite Forall_forall in IH. apply IH; [exact Hin|].
     rewrite forallb_forall in Hwf. apply Hwf. exact Hin.
 Qed.
@@ -154,7 +177,7 @@ Qed.
 Definition rightmost (r : resolver) : bool :=
   match r with RTrustedCount _ _ | RRightNonPrivate _ _ | RTrustedRange _ (Some _) => true | _ => false end.
 
-Lemma header_values_attacked rq hdr extra text fwd :
+Lemma header_values_attacked rq (hdr : N) extra text (fwd : bool) :
   hdr = (if fwd then 1 else 0) ->
   header_values (attacked rq hdr extra text) fwd = attack_lines extra text (header_values rq fwd).
 Proof. intros ->. destruct fwd; reflexivity. Qed.
